@@ -178,13 +178,17 @@ def check(run: Run, prog: Program, model: Model, tier: str) -> None:
         run.holds("DETERMINISTIC", "Representor (all methods)", rep.loc, "no set-order / id / hash dependence", nontrivial=False)
 
 
+_SIM_CACHE: Dict[Any, Any] = {}
+
+
 def _canonical_any(run: Run, prog: Program, model: Model) -> None:
     """CANONICAL-ANY: the representor prints the members of a union one by one, and evaluating `schema.any(...)`
     flattens typed unions among them; the round trip therefore needs every constructor of a union (`schema.any(..)` and
     `a | b`) to store a FLAT tuple - a typed union kept as a member prints as nested text that evaluates to another schema."""
     from ..values import PropsV, SchemaV, TupleV
-    from ..visits import member
     from ..loader import FuncInfo
+    from .c13 import _PLAIN, plain as member        # members of a concrete non-any class: class tests on them are decided
+    _PLAIN["cls"] = model.schemas["IntSchema"].cls
     st = model.schemas["AnySchema"]
 
     def anyu(*tokens: V) -> V:
@@ -329,11 +333,17 @@ def _check_emission(run: Run, prog: Program, model: Model, st: SchemaType, ta: T
         import itertools as _it
         from .c11 import describe, simulate
         pi = tuple(by_key[k] for k in replayed)
-        mine = simulate(ta, frozenset(), pi)
+
+        def sim(order: Any) -> Any:
+            ck = (id(ta), tuple(s_.key for s_ in order))
+            if ck not in _SIM_CACHE:
+                _SIM_CACHE[ck] = simulate(ta, frozenset(), order)
+            return _SIM_CACHE[ck]
+        mine = sim(pi)
         for sigma in _it.permutations(pi):
             if sigma == pi:
                 continue
-            other = simulate(ta, frozenset(), sigma)
+            other = sim(sigma)
             lost = [o for o in other if o not in mine and "<limit>" not in o[0]]
             if lost:
                 run.violated("EMIT-REPLAY", construct, site,
